@@ -152,6 +152,21 @@ def run(ctx):
                     ctx.ob("R05.dom", "open_mailbox returns only when not crowded", ok, e,
                            "" if ok else "the Mailbox is returned on the crowded branch")
     ctx.require("R05.dom", nret, 3, "returns of open_mailbox")
+    # the nameplate's mailbox id is told only after the mailbox crowd check:
+    # every `claimed` frame is preceded on its path by a returned open_mailbox
+    ncl = 0
+    for p in model.paths("ws:onMessage"):
+        got = False
+        for e, _ in all_events(p):
+            if e["k"] == "ret" and e["callee"] == "AppNamespace.open_mailbox":
+                got = True
+            if e["k"] == "send" and frame_type(e) == "claimed":
+                ncl += 1
+                ctx.ob("R05.dom", "claimed is sent only after the mailbox crowd check passed",
+                       got, e, "" if got else "a side is told the nameplate's mailbox id "
+                       "without having passed the two-side check",
+                       None if got else render_path(p.events))
+    ctx.require("R05.dom", ncl, 1, "claimed frames")
     # R05.noleak
     nleak = 0
     for name in ("claim", "open", "close"):
